@@ -254,7 +254,7 @@ func TestBounded_C06(t *testing.T) {
 	// seeded random related / unrelated pairs over keys 0..63
 	seeds := 60
 	if bTier() == "thorough" {
-		seeds = 600
+		seeds = bScale(600)
 	}
 	for seed := 1; seed <= seeds; seed++ {
 		r := &bRand{uint64(seed)*0x9E3779B97F4A7C15 + 99}
@@ -465,7 +465,7 @@ func bNodeDiffCases(t *testing.T) int {
 	pairs := 0
 	seeds := 80
 	if bTier() == "thorough" {
-		seeds = 800
+		seeds = bScale(800)
 	}
 	for seed := 1; seed <= seeds; seed++ {
 		r := &bRand{uint64(seed)*0xD1B54A32D192ED03 + 5}
